@@ -1,5 +1,4 @@
-(* C04 - degree bounds are enforced by committer and verifier (Marlin model; Sonic and IPA are
-   covered by the correspondence/oracle half of this check until their models land).
+(* C04 - degree bounds are enforced by committer and verifier (Marlin, Sonic and IPA models).
    Statements only. *)
 From Coq Require Import List Arith NArith.
 From PC Require Import Base.Field Base.Result Base.Poly Schemes.KZG10 Schemes.Marlin
@@ -82,3 +81,75 @@ Theorem C04_sonic_unsupported_bound_refused :
     exists va rest, s_acc vk ((c, Some d) :: cs) (0 :: vs) cur (nxt :: chal) lhs val = Ok (Err EUnsupportedDegreeBound, va, rest).
 Proof. exact @sonic_unsupported_bound_refused. Qed.
 Print Assumptions C04_sonic_unsupported_bound_refused.
+
+(* IPA (free-module view): the verifier's combined commitment depends on the presence of a claimed bound, not on its value;
+   the bound enters through the weight z^(d-b) of the claimed value.  The same commitments and proof presented under other
+   bounds are accepted only if the weighted sums of the claimed values coincide; for one commitment relabelled from b to b'
+   with the same value v this forces nxt * (z^(d-b) - z^(d-b')) * v = 0 *)
+From PC Require Import Schemes.LC Schemes.IPA Proofs.IPAFacts Proofs.IPABinding Proofs.IPABounds.
+Theorem C04_ipa_relabelled_bounds_tie_values :
+  forall (FO : FieldOps) (FL : FieldLaws FO) d cs1 cs2 z vs1 vs2 pf chal hchal r1 h1 r2 h2,
+    same_shape cs1 cs2 -> length vs1 = length cs1 -> length vs2 = length cs2 ->
+    Forall (fun rc => rc <> f0) (firstn 2 hchal) ->
+    i_check d cs1 z vs1 pf chal hchal = Ok (true, r1, h1) ->
+    i_check d cs2 z vs2 pf chal hchal = Ok (true, r2, h2) ->
+    match chal with
+    | c0 :: chal0 => dot (sc_weights d z cs1 c0 chal0) vs1 = dot (sc_weights d z cs2 c0 chal0) vs2
+    | [] => False
+    end.
+Proof. exact @ipa_check_relabel. Qed.
+Print Assumptions C04_ipa_relabelled_bounds_tie_values.
+
+Theorem C04_ipa_relabelled_bound :
+  forall (FO : FieldOps) (FL : FieldLaws FO) d cm b b' z v pf c0 nxt nxt2 chal2 hchal r1 h1 r2 h2,
+    Forall (fun rc => rc <> f0) (firstn 2 hchal) ->
+    i_check d [(cm, Some b)] z [v] pf (c0 :: nxt :: nxt2 :: chal2) hchal = Ok (true, r1, h1) ->
+    i_check d [(cm, Some b')] z [v] pf (c0 :: nxt :: nxt2 :: chal2) hchal = Ok (true, r2, h2) ->
+    nxt * (fpow z (d - b) - fpow z (d - b')) * v = f0.
+Proof. exact @ipa_relabelled_bound. Qed.
+Print Assumptions C04_ipa_relabelled_bound.
+
+Theorem C04_ipa_commit_refuses_bad_bound :
+  forall (FO : FieldOps) d lp b rng,
+    lp_bound lp = Some b -> (b < degree (lp_poly lp) \/ d < b)%nat ->
+    exists e, i_commit1 d lp rng = Err e.
+Proof. exact @ipa_commit_refuses_bad_bound. Qed.
+Print Assumptions C04_ipa_commit_refuses_bad_bound.
+
+Theorem C04_ipa_bound_presence_mismatch_aborts :
+  forall (FO : FieldOps) d z cm bound cs v vs cur nxt chal1 cc cv,
+    has_bound bound <> (match ic_shifted cm with Some _ => true | None => false end) ->
+    i_sc_loop d z ((cm, bound) :: cs) (v :: vs) cur (nxt :: chal1) cc cv = Panic.
+Proof. exact @ipa_bound_presence_mismatch_aborts. Qed.
+Print Assumptions C04_ipa_bound_presence_mismatch_aborts.
+
+Theorem C04_ipa_bound_above_key_aborts :
+  forall (FO : FieldOps) d z cm sc b cs v vs cur nxt nxt2 chal2 cc cv,
+    ic_shifted cm = Some sc -> (d < b)%nat ->
+    i_sc_loop d z ((cm, Some b) :: cs) (v :: vs) cur (nxt :: nxt2 :: chal2) cc cv = Panic.
+Proof. exact @ipa_bound_above_key_aborts. Qed.
+Print Assumptions C04_ipa_bound_above_key_aborts.
+
+(* Sonic: the claimed bound selects the G2 shift element; the same commitment, value and proof accepted under two bounds
+   force c * c0 * (sp - sp') = 0, and for several commitments the same weighted sum of commitment * shift element *)
+From PC Require Import Proofs.SonicBounds.
+Theorem C04_sonic_relabelled_bound :
+  forall (FO : FieldOps) (FL : FieldLaws FO) vk c b b' sp sp' z v pf c0 chal0 r1 r2,
+    shift_power vk b = Ok sp -> shift_power vk b' = Ok sp' ->
+    s_check vk [(c, b)] z [v] pf (c0 :: chal0) = Ok (true, r1) ->
+    s_check vk [(c, b')] z [v] pf (c0 :: chal0) = Ok (true, r2) ->
+    c * c0 * (sp - sp') = f0.
+Proof. exact @sonic_relabelled_bound. Qed.
+Print Assumptions C04_sonic_relabelled_bound.
+
+Theorem C04_sonic_relabelled_bounds :
+  forall (FO : FieldOps) (FL : FieldLaws FO) vk cs1 cs2 sps1 sps2 z vs pf chal r1 r2,
+    map fst cs1 = map fst cs2 ->
+    length vs = length cs1 -> (length cs1 < length chal)%nat ->
+    Forall2 (fun cb sp => shift_power vk (snd cb) = Ok sp) cs1 sps1 ->
+    Forall2 (fun cb sp => shift_power vk (snd cb) = Ok sp) cs2 sps2 ->
+    s_check vk cs1 z vs pf chal = Ok (true, r1) -> s_check vk cs2 z vs pf chal = Ok (true, r2) ->
+    wval (map (fun csp => fst (fst csp) * snd csp) (combine cs1 sps1)) (hd f0 chal) (tl chal) f0
+    = wval (map (fun csp => fst (fst csp) * snd csp) (combine cs2 sps2)) (hd f0 chal) (tl chal) f0.
+Proof. exact @sonic_relabelled_bounds. Qed.
+Print Assumptions C04_sonic_relabelled_bounds.
